@@ -52,7 +52,9 @@ ProtoOf(o) == IF o.proto # "" THEN o.proto ELSE IF o.callable THEN "Function.pro
 (* "otherwise specified" as {false, false, false}: kinds constant(-object).    *)
 DefaultAttrs(kind) ==
     IF kind \in {"constant", "constant-object", "length"} THEN <<"F", "F", "F">> ELSE <<"T", "F", "T">>
-AttrsOf(r) == IF r.kind = "absent" THEN <<>> ELSE IF r.attrs # <<>> THEN r.attrs ELSE DefaultAttrs(r.kind)
+AttrsOf(r) == IF r.kind \in {"absent", "missing"} THEN <<>>
+              ELSE IF r.kind = "thrower" THEN <<"-", "F", "F">>      \* 13.2.3 / 15.3.4.5 step 20-21: accessor, ~e, ~c
+              ELSE IF r.attrs # <<>> THEN r.attrs ELSE DefaultAttrs(r.kind)
 
 (* 11.4.3 the typeof operator *)
 TypeOfVal(v) ==
@@ -64,13 +66,32 @@ TypeOfObj(o) == IF o.callable THEN "function" ELSE "object"
 (* Expected observations *)
 
 (* an own property: Object.getOwnPropertyDescriptor(owner, name), typeof, value *)
+(* 8.12.5 [[Put]] (step 1 -> 8.12.4 [[CanPut]]: an own data property accepts   *)
+(* the value iff it is [[Writable]]; outside strict code a rejected put is     *)
+(* silent) and 8.12.7 [[Delete]] (removes the property iff [[Configurable]],   *)
+(* otherwise answers false): the attributes are also observed by what they     *)
+(* DO.  <<put takes effect, delete takes effect>>; the probe restores the      *)
+(* property.  Not probed: array/string/arguments "length" and elements (their  *)
+(* [[DefineOwnProperty]] is special: properties C07, C08).                     *)
+BehKinds == {"function", "object", "constant", "constant-object", "length"}
+BehExp(r) == IF r.kind \in BehKinds THEN <<AttrsOf(r)[1], AttrsOf(r)[3]>> ELSE <<>>
+
+(* kinds "missing" (a property ES5 requires that the implementation lacks) and *)
+(* "unlisted-object" (a property ES5 excludes whose value is some object) only *)
+(* occur in named deviation branches                                          *)
+Unlisted == [t |-> "ref", id |-> "?"]
 RowExp(tb, r) ==
-    IF r.kind = "absent"
-    THEN [own |-> "none", attrs |-> <<>>, ty |-> "undefined", val |-> [t |-> "none"]]
+    IF r.kind \in {"absent", "missing"}
+    THEN [own |-> "none", attrs |-> <<>>, ty |-> "undefined", val |-> [t |-> "none"], beh |-> <<>>]
+    ELSE IF r.kind = "thrower"      \* both [[Get]] and [[Set]] are the [[ThrowTypeError]] function object (13.2.3)
+    THEN [own |-> "acc", attrs |-> AttrsOf(r), ty |-> "accessor", val |-> [t |-> "acc", get |-> Unlisted, set |-> Unlisted], beh |-> <<>>]
+    ELSE IF r.kind = "unlisted-object"
+    THEN [own |-> "data", attrs |-> AttrsOf(r), ty |-> "object", val |-> Unlisted, beh |-> BehExp(r)]
     ELSE [own |-> "data", attrs |-> AttrsOf(r),
           ty  |-> IF r.target # "" THEN TypeOfObj(Obj(tb, r.target)) ELSE TypeOfVal(r.val),
           val |-> IF r.target # "" THEN [t |-> "ref", id |-> r.target]       \* identity with the object of that path
-                  ELSE IF r.valmode = "type" THEN [t |-> "any"] ELSE r.val]
+                  ELSE IF r.valmode = "type" THEN [t |-> "any"] ELSE r.val,
+          beh |-> BehExp(r)]
 
 (* the names ES5 gives the object as own properties *)
 NamesOf(tb, id) ==
@@ -80,11 +101,26 @@ NamesOf(tb, id) ==
 
 (* an object: typeof, [[Class]], [[Prototype]] (path), [[Extensible]]; every   *)
 (* listed own property present; whatever the implementation adds (clause 16    *)
-(* allows additional properties) not enumerable; the distinguishing call       *)
+(* allows additional properties) not enumerable                               *)
+MissingOf(tb, id) ==
+    LET ms == SelectSeq(OwnRows(tb, id), LAMBDA r : r.kind = "missing")
+    IN  [k \in 1..Len(ms) |-> ms[k].name]
+(* Object.getOwnPropertyDescriptor (15.2.3.3) answers for every own property.  *)
+(* otto: it panics (a Go panic that leaves Run) on the accessor properties the *)
+(* implementation adds to function objects ("caller") and Error objects        *)
+(* ("stack"): their mode says "data descriptor".                               *)
+ReflectExp(o) ==
+    IF D("D14_gopd_panics_on_internal_accessor") /\ o.mk \in {"function-object", "error-object"} THEN "go-panic" ELSE "ok"
+(* clause 15: "None of the built-in functions described in this clause that   *)
+(* are not constructors shall implement the [[Construct]] internal method";    *)
+(* 11.2.2 step 5: new on such a function throws a TypeError                    *)
+NewExp(o) == IF o.callable /\ ~o.ctor /\ o.grp \in {"lib", "annexB"} THEN "TypeError" ELSE "n/a"
 ObjExp(tb, o) ==
-    [ty |-> TypeOfObj(o), cls |-> ClassOf(o), proto |-> ProtoOf(o), ext |-> o.ext,
-     missing |-> <<>>, enumextra |-> <<>>,
-     call |-> IF o.call = "" THEN <<>> ELSE <<o.callexp>>]
+    [ty |-> TypeOfObj(o), new |-> NewExp(o), cls |-> ClassOf(o), proto |-> ProtoOf(o), ext |-> o.ext,
+     missing |-> MissingOf(tb, o.id), enumextra |-> <<>>, reflect |-> ReflectExp(o)]
+(* the distinguishing call of a function (or constructor, or callable/regexp   *)
+(* prototype): its result is written in the table                              *)
+CallExp(o) == o.callexp
 (* 15.1: [[Class]] and [[Prototype]] of the global object are implementation-  *)
 (* dependent and it "may have host defined properties": not compared           *)
 ObjMask(o) == [cls |-> o.cls # "?", proto |-> o.proto # "?", enumextra |-> o.id # "global"]
@@ -97,7 +133,7 @@ Chain(tb, id, fuel) ==
     IF id \notin tb.ids \/ fuel = 0 THEN <<>>
     ELSE <<id>> \o Chain(tb, ProtoOf(Obj(tb, id)), fuel - 1)
 EnumNames(tb, id) ==
-    LET rs == SelectSeq(OwnRows(tb, id), LAMBDA r : r.kind # "absent" /\ AttrsOf(r)[2] = "T")
+    LET rs == SelectSeq(OwnRows(tb, id), LAMBDA r : r.kind \notin {"absent", "missing"} /\ AttrsOf(r)[2] = "T")
     IN  [k \in 1..Len(rs) |-> rs[k].name]
 RECURSIVE ForInAcc(_, _, _, _, _)
 ForInAcc(tb, ch, k, seen, acc) ==
@@ -120,7 +156,7 @@ RowIssues(tb, r) ==
     {m \in {"owner", "target", "kind", "function-attrs", "constant-attrs", "length-row", "enumerable", "target-kind"} :
         CASE m = "owner" -> r.owner \notin tb.ids
           [] m = "target" -> ~(r.target = "" \/ r.target \in tb.ids)
-          [] m = "kind" -> r.kind \notin {"function", "constant", "constant-object", "length", "value", "object", "element", "absent"}
+          [] m = "kind" -> r.kind \notin {"function", "constant", "constant-object", "length", "value", "object", "element", "absent", "thrower"}
           \* every function-valued property: {writable, ~enumerable, configurable}, value callable
           [] m = "function-attrs" -> r.kind = "function" /\ ~(AttrsOf(r) = <<"T", "F", "T">> /\ Obj(tb, r.target).callable)
           \* constants, constructor.prototype, function length: {~w, ~e, ~c}
